@@ -417,11 +417,27 @@ func c15Binary(r *Run, craft func(ek, sk []byte, sign bool, claims jwt.Claims, a
 	idp := newFakeIdP()
 	defer idp.close()
 	enc := "user-token-encryption-key-32-ch!"
-	for _, sk := range []string{"", "short-signing-key-21ch", "user-token-signing-key-32-chars!"} {
+	sk32 := "user-token-signing-key-32-chars!"
+	type keyCfg struct {
+		enable bool
+		enc    string // "" = not configured
+		sk     string
+	}
+	cfgs := []keyCfg{
+		{true, enc, ""}, {true, enc, "short-signing-key-21ch"}, {true, enc, sk32},
+		// the endpoint is registered whether or not user tokens are enabled, and with them disabled the
+		// loader leaves the keys as configured: every combination of present and absent keys
+		{false, enc, ""}, {false, enc, sk32}, {false, "", sk32}, {false, "", ""}, {true, "", sk32},
+	}
+	for _, kc := range cfgs {
+		sk := kc.sk
 		port := freePort()
 		ta := true
 		y := &gwYaml{port: port, tlsOn: false, auth: []string{"openid"}, hosts: []string{"10.0.0.1:3389"}, idpURL: idp.srv.URL, tokenAuth: &ta,
-			keys: map[string]string{"security.usertokenencryptionkey": enc}, extraSec: []string{"enableusertoken: true"}}
+			keys: map[string]string{}, extraSec: []string{fmt.Sprintf("enableusertoken: %v", kc.enable)}}
+		if kc.enc != "" {
+			y.keys["security.usertokenencryptionkey"] = kc.enc
+		}
 		if sk != "" {
 			y.keys["security.usertokensigningkey"] = sk
 		}
@@ -433,8 +449,11 @@ func c15Binary(r *Run, craft func(ek, sk []byte, sign bool, claims jwt.Claims, a
 		}
 		std := jwt.Claims{Subject: "alice", Issuer: "rdpgw", Expiry: jwt.NewNumericDate(time.Now().Add(5 * time.Minute))}
 		toks := map[string]string{
-			"encrypt-only":             craft([]byte(enc), nil, false, std, jose.A128CBC_HS256),
-			"signed under another key": craft([]byte(enc), []byte("some-other-signing-key-32-chars!"), true, std, jose.A128CBC_HS256),
+			"encrypt-only":                         craft([]byte(enc), nil, false, std, jose.A128CBC_HS256),
+			"signed under another key":             craft([]byte(enc), []byte("some-other-signing-key-32-chars!"), true, std, jose.A128CBC_HS256),
+			"not a token":                          "garbage.garbage.garbage.garbage.garbage",
+			"a plain signed JWT":                   signCompact(map[string]interface{}{"alg": "HS256", "typ": "JWT"}, map[string]interface{}{"iss": "rdpgw", "sub": "alice", "exp": time.Now().Unix() + 300}, "HS256", []byte(sk32)),
+			"an expired token under the same keys": craft([]byte(enc), []byte(sk32), len(sk) == 32, jwt.Claims{Subject: "alice", Issuer: "rdpgw", Expiry: jwt.NewNumericDate(time.Now().Add(-time.Hour))}, jose.A128CBC_HS256),
 		}
 		if len(sk) == 32 {
 			toks["signed under the configured key"] = craft([]byte(enc), []byte(sk), true, std, jose.A128CBC_HS256)
@@ -450,14 +469,18 @@ func c15Binary(r *Run, craft func(ek, sk []byte, sign bool, claims jwt.Claims, a
 			}
 			b, _ := io.ReadAll(resp.Body)
 			resp.Body.Close()
-			want := (name == "encrypt-only" && sk == "") || name == "signed under the configured key"
-			r.Count(fmt.Sprintf("binary:%d:%s", len(sk), name))
+			// acceptable only when the running gateway holds the encryption key the token was made under, and
+			// then: an encrypt-only token when no signing key is configured, a signed one under the configured key
+			want := kc.enc == enc && ((name == "encrypt-only" && sk == "") || name == "signed under the configured key")
+			r.Count(fmt.Sprintf("binary:%v:%d:%d:%s", kc.enable, len(kc.enc), len(sk), name))
 			r.Dist("binary:signing-key-len-" + fmt.Sprint(len(sk)))
-			rep := fmt.Sprintf("real binary, enableusertoken, usertokenencryptionkey of 32 characters, usertokensigningkey of %d characters; token: %s → %d %q\n", len(sk), name, resp.StatusCode, b)
+			rep := fmt.Sprintf("real binary, enableusertoken: %v, usertokenencryptionkey of %d characters, usertokensigningkey of %d characters; token: %s → %d %q\n", kc.enable, len(kc.enc), len(sk), name, resp.StatusCode, b)
 			if resp.StatusCode == 200 && !want {
 				r.Violation("c15-accepts", "claims returned for a token that does not decrypt/verify under the configured keys, or is expired, or names another issuer", rep)
 			} else if resp.StatusCode != 200 && want {
 				r.Violation("c15-fresh", "a token made under the configured keys is refused by the running gateway", rep)
+			} else if resp.StatusCode != 200 && (strings.Contains(string(b), "alice") || strings.Contains(string(b), "\"sub\"")) {
+				r.Violation("c15-disclose", "claims disclosed with a status other than 200", rep)
 			}
 		}
 		p.stop()
